@@ -633,10 +633,10 @@ pub fn check(ctx: &Ctx) {
         eprintln!("MACHINERY: armor reference model self-test failed: {e}");
         std::process::exit(2);
     }
-    let maxlen = ctx.tier.pick(512, 4096);
+    let maxlen = ctx.tier.pick(4096, 20_000);
     let mut rt = Vec::new();
     let mut lens: Vec<usize> = (0..=maxlen).collect();
-    if ctx.tier == crate::engine::Tier::Quick {
+    if false {
         // every residue mod 48 (one base64 line) up to 4096, sparsely
         for k in (513..=4096).step_by(48 * 4 + 1) {
             lens.push(k);
@@ -681,10 +681,10 @@ pub fn check(ctx: &Ctx) {
     );
 
     let mut vc = Vec::new();
-    let vlens: Vec<usize> = if ctx.tier == crate::engine::Tier::Quick {
+    let vlens: Vec<usize> = if false {
         (0..=200).chain(755..=775).chain(1525..=1540).chain([1023, 1024, 1025, 2000]).collect()
     } else {
-        (0..=2100).collect()
+        (0..=ctx.tier.pick(2100, 6200)).collect()
     };
     for &len in &vlens {
         for variant in 0..VARIANTS.len() as u8 {
@@ -734,7 +734,10 @@ pub fn check(ctx: &Ctx) {
     );
 
     let mut sc = Vec::new();
-    let quick = ctx.tier == crate::engine::Tier::Quick;
+    // the former thorough bounds take seconds: they are the quick tier now; `deep` = thorough
+    let quick = false;
+    #[allow(unused_variables)]
+    let deep = ctx.tier == crate::engine::Tier::Thorough;
     let slens: &[usize] = if quick {
         &[0, 1, 3, 48, 49, 97, 770]
     } else {
@@ -790,7 +793,7 @@ pub fn check(ctx: &Ctx) {
                             uniform: None,
                             faults: true,
                             crlf,
-                            max_dev: if len <= 49 && !quick && hdr == 0 { 2 } else { 1 },
+                            max_dev: if !quick && ((len <= 49 && hdr == 0) || (deep && len <= 97 && hdr <= 1)) { 2 } else { 1 },
                             stateful: false,
                             hdr,
                             lead,
